@@ -625,6 +625,105 @@ func zzC13ConcDoc(v int, class string) (doc yobj, body []byte, ok bool, err erro
 	return doc, body, true, err
 }
 
+// ------------------------------------------------------------------- env
+
+// zzC13Env is the state of the part of the file system that steps 1 and 2
+// touch (the cells @env.* of Migrate.tla).
+type zzC13Env struct {
+	WorkDir, DNSFilter, Corefile string
+}
+
+// zzC13EnvOf splits the environment pseudo deviations from the others.
+func zzC13EnvOf(devs []zzC13Dev) (env *zzC13Env, rest []zzC13Dev) {
+	for _, d := range devs {
+		if !strings.HasPrefix(d.K, "@env.") {
+			rest = append(rest, d)
+
+			continue
+		}
+		if env == nil {
+			env = &zzC13Env{WorkDir: "dir", DNSFilter: "absent", Corefile: "absent"}
+		}
+		switch d.K {
+		case "@env.workdir":
+			env.WorkDir = d.D
+		case "@env.dnsfilter":
+			env.DNSFilter = d.D
+		case "@env.corefile":
+			env.Corefile = d.D
+		}
+	}
+
+	return env, rest
+}
+
+// zzC13MakeEnv realises env under a fresh temporary directory and returns
+// the working directory to hand to the Migrator.  A nil env is the fixed
+// working directory that does not exist.
+func zzC13MakeEnv(env *zzC13Env) (workDir string, cleanup func(), err error) {
+	if env == nil {
+		return zzC13WorkDir, func() {}, nil
+	}
+
+	root, err := os.MkdirTemp("", "zzc13env")
+	if err != nil {
+		return "", nil, err
+	}
+	cleanup = func() { _ = os.RemoveAll(root) }
+	workDir = filepath.Join(root, "work")
+
+	file := func(name, state string) (ferr error) {
+		p := filepath.Join(workDir, name)
+		switch state {
+		case "absent":
+			return nil
+		case "file":
+			return os.WriteFile(p, []byte("legacy\n"), 0o600)
+		case "emptydir":
+			return os.Mkdir(p, 0o700)
+		case "nonemptydir":
+			if ferr = os.Mkdir(p, 0o700); ferr != nil {
+				return ferr
+			}
+
+			return os.WriteFile(filepath.Join(p, "inner"), []byte("x"), 0o600)
+		case "dangling":
+			return os.Symlink("zz-no-such-target", p)
+		case "selfloop":
+			return os.Symlink(name, p)
+		default:
+			return fmt.Errorf("unknown file state %q", state)
+		}
+	}
+
+	switch env.WorkDir {
+	case "dir":
+		if err = os.Mkdir(workDir, 0o700); err == nil {
+			err = file("dnsfilter.txt", env.DNSFilter)
+		}
+		if err == nil {
+			err = file("Corefile", env.Corefile)
+		}
+	case "notdir":
+		err = os.WriteFile(workDir, []byte("not a directory\n"), 0o600)
+	case "looplink":
+		err = os.Symlink("work", workDir)
+	case "dangling":
+		err = os.Symlink("zz-no-such-dir", workDir)
+	case "toolong":
+		workDir = filepath.Join(root, strings.Repeat("x", 300))
+	default:
+		err = fmt.Errorf("unknown working directory state %q", env.WorkDir)
+	}
+	if err != nil {
+		cleanup()
+
+		return "", nil, err
+	}
+
+	return workDir, cleanup, nil
+}
+
 // ------------------------------------------------------------------- run
 
 type zzC13Res struct {
@@ -636,14 +735,14 @@ type zzC13Res struct {
 }
 
 // zzC13Migrate calls the real Migrate, recovering a panic.
-func zzC13Migrate(body []byte, target int) (res zzC13Res) {
+func zzC13Migrate(body []byte, target int, workDir string) (res zzC13Res) {
 	defer func() {
 		if r := recover(); r != nil {
 			res = zzC13Res{Kind: "panic", Msg: fmt.Sprint(r)}
 		}
 	}()
 
-	m := New(&Config{WorkingDir: zzC13WorkDir, DataDir: zzC13DataDir})
+	m := New(&Config{WorkingDir: workDir, DataDir: zzC13DataDir})
 	in := bytes.Clone(body)
 	out, upgraded, err := m.Migrate(in, uint(target))
 	res.Body = out
@@ -1034,7 +1133,7 @@ func zzC13Match(final yobj, shape map[string]zzC13TV, in yobj) (diff string) {
 	}
 	sort.Strings(keys)
 	for _, k := range keys {
-		if shape[k].T == "absent" || seen[k] || strings.HasPrefix(k, "fl0") {
+		if shape[k].T == "absent" || seen[k] || strings.HasPrefix(k, "fl0") || strings.HasPrefix(k, "@env.") {
 			continue
 		}
 		if len(k) > 3 && zzC13ElemIdx(k[:3]) >= 0 {
@@ -1116,7 +1215,16 @@ type zzC13Out struct {
 // run from the same version.
 func zzC13Check(vec *zzC13Vec, base map[string]zzC13TV) (out zzC13Out) {
 	out = zzC13Out{Kind: "pass", ID: vec.ID, V: vec.V, Devs: vec.Devs, Matched: -1}
-	in, body, ok, err := zzC13Conc(vec.V, vec.Devs)
+	env, docDevs := zzC13EnvOf(vec.Devs)
+	in, body, ok, err := zzC13Conc(vec.V, docDevs)
+	if err == nil && ok {
+		// Every upgrade path gets its own copy of the environment; the two
+		// halves of a split run share one, as they would on disk.
+		var probe func()
+		if _, probe, err = zzC13MakeEnv(env); err == nil {
+			probe()
+		}
+	}
 	if err != nil {
 		out.Kind, out.What = "skip", "conc: "+err.Error()
 
@@ -1136,7 +1244,9 @@ func zzC13Check(vec *zzC13Vec, base map[string]zzC13TV) (out zzC13Out) {
 	}
 
 	// One-shot.
-	one := zzC13Migrate(body, zzC13Last)
+	workDir, cleanup, _ := zzC13MakeEnv(env)
+	defer cleanup()
+	one := zzC13Migrate(body, zzC13Last, workDir)
 	out.Paths++
 	switch one.Kind {
 	case "panic":
@@ -1194,7 +1304,7 @@ func zzC13Check(vec *zzC13Vec, base map[string]zzC13TV) (out zzC13Out) {
 		}
 
 		// Upgrading the result again changes nothing.
-		again := zzC13Migrate(one.Body, zzC13Last)
+		again := zzC13Migrate(one.Body, zzC13Last, workDir)
 		if again.Kind != "same" || !again.Same {
 			return bad("not-idempotent", "upgrading the upgraded document is not a no-op", 0, again)
 		}
@@ -1207,7 +1317,9 @@ func zzC13Check(vec *zzC13Vec, base map[string]zzC13TV) (out zzC13Out) {
 		}
 
 		out.Paths++
-		p1 := zzC13Migrate(body, k)
+		splitDir, splitCleanup, _ := zzC13MakeEnv(env)
+		defer splitCleanup()
+		p1 := zzC13Migrate(body, k, splitDir)
 		switch p1.Kind {
 		case "panic":
 			return bad("panic", fmt.Sprintf("partial upgrade to %d panics: %s", k, p1.Msg), k, p1)
@@ -1223,7 +1335,7 @@ func zzC13Check(vec *zzC13Vec, base map[string]zzC13TV) (out zzC13Out) {
 			return bad("not-upgraded", "partial upgrade did nothing", k, p1)
 		}
 
-		p2 := zzC13Migrate(p1.Body, zzC13Last)
+		p2 := zzC13Migrate(p1.Body, zzC13Last, splitDir)
 		switch p2.Kind {
 		case "panic":
 			return bad("panic", fmt.Sprintf("upgrade of the serialised version-%d document panics: %s", k, p2.Msg), k, p2)
